@@ -257,6 +257,20 @@ func checkInner(c Case) (string, string) {
 			if err == nil || !errors.Is(err, hackpadfs.ErrNotDir) {
 				return base + " readdir:file-not-notdir", fmt.Sprintf("ReadDir(%q) of a regular file = %v, want an error matching ErrNotDir", childPath(ch.Name), err)
 			}
+			// ... and through one handle, asked more than once (the answer must not change on the second attempt)
+			if fh, oerr := b.fs.Open(childPath(ch.Name)); oerr == nil {
+				for attempt, n := range []int{-1, 1, -1} {
+					_, rerr := hackpadfs.ReadDirFile(fh, n)
+					if errors.Is(rerr, hackpadfs.ErrNotImplemented) {
+						break
+					}
+					if rerr == nil || rerr == io.EOF || !errors.Is(rerr, hackpadfs.ErrNotDir) {
+						_ = fh.Close()
+						return base + " readdir:file-handle-not-notdir", fmt.Sprintf("attempt %d: ReadDir(%d) on a handle of the regular file %q = %v, want an error matching ErrNotDir", attempt, n, childPath(ch.Name), rerr)
+					}
+				}
+				_ = fh.Close()
+			}
 			break
 		}
 	}
